@@ -1,1 +1,83 @@
-fn main() { println!("qesim skeleton"); }
+mod cluster;
+mod kit;
+
+use kit::report::{self, CheckSpec, RunFn, Tier};
+
+fn registry(prop: &str) -> Option<(CheckSpec, RunFn, fn(&serde_json::Value, &report::Violation) -> Vec<serde_json::Value>)> {
+    match prop {
+        "C09" => Some((
+            CheckSpec {
+                prop: "C09",
+                engine: "cluster-sim",
+                level: "exploration",
+                rule: "one run = one seeded world (1-3 generated tables, Parquet layout, 1-8 nodes with per-node copies under different mounts/listing orders) x 10 generated statements, each forced-distributed through the real coordinator over a simulated FragmentTransport and compared with the single-node answer; a case is non-trivial when the single node answered and the cluster did not refuse; distinct = distinct (merge shape, family, cluster size, fragments sent, statement text)",
+                runs_quick: 320,
+                runs_thorough: 20000,
+                secs_quick: 50,
+                secs_thorough: 900,
+                gate_runs: 24,
+                real: &["plan_distributed", "plan_gather", "execute_any_distributed", "scatter/merge/unify", "enumerate_parquet", "assign_lpt", "ShardedParquetTable", "execute_fragment", "encode_ipc/decode_ipc", "ExecutionContext::sql", "FragmentRequest serde"],
+                stub: &["HTTP framing and hyper (bypassed at this layer; the wire layer covers them)", "SimTransport replaces HttpTransport"],
+                assumptions: &["the single-node answer over the same Parquet files is the oracle; a semantics bug shared by both sides is invisible by construction", "generated DOUBLE values are dyadic so sums are exact in any order"],
+                expected_probes: &["idle_node", "empty_answer"],
+            },
+            cluster::runs::run_c09,
+            cluster::runs::shrink_candidates,
+        )),
+        _ => None,
+    }
+}
+
+fn main() {
+    let args: Vec<String> = std::env::args().collect();
+    if args.len() < 3 {
+        eprintln!("usage: qesim check <PROP> quick|thorough | worker ... | replay <PROP> <file> | run <PROP> <seed-index>");
+        std::process::exit(2);
+    }
+    let cmd = args[1].as_str();
+    let prop = args[2].as_str();
+    let Some((spec, run, cands)) = registry(prop) else {
+        eprintln!("unknown property {prop}");
+        std::process::exit(2);
+    };
+    match cmd {
+        "check" => {
+            let tier = Tier::parse(args.get(3).map(|s| s.as_str()).unwrap_or("quick"));
+            std::process::exit(report::check_main(&spec, tier));
+        }
+        "worker" => {
+            let tier = Tier::parse(&args[3]);
+            let p = |i: usize| args[i].parse::<u64>().expect("numeric worker arg");
+            report::worker_main(&spec, run, cands, tier, p(4), p(5), p(6), p(7), p(8));
+            let _ = std::fs::remove_dir_all(report::scratch_root());
+        }
+        "replay" => {
+            let code = report::replay_main(&spec, run, std::path::Path::new(&args[3]));
+            let _ = std::fs::remove_dir_all(report::scratch_root());
+            std::process::exit(code);
+        }
+        "run" => {
+            // one run by index, printed in full (debugging aid)
+            let idx: u64 = args[3].parse().expect("run index");
+            let seed: u64 = std::env::var("VERIF_SEED").ok().and_then(|s| s.parse().ok()).unwrap_or(report::DEFAULT_SEED);
+            let rs = report::run_seed(seed, spec.prop, idx);
+            let out = run(spec.prop, Tier::Quick, rs, &serde_json::Value::Null);
+            println!("{}", serde_json::to_string_pretty(&out.to_json(idx, rs)).unwrap());
+            let _ = std::fs::remove_dir_all(report::scratch_root());
+        }
+        "dbg" => {
+            // qesim dbg <PROP> <replay-file> "<sql>" [nodes] [initiator]
+            let doc: serde_json::Value = serde_json::from_str(&std::fs::read_to_string(&args[3]).expect("replay file")).expect("json");
+            let rs = doc["run_seed"].as_u64().unwrap();
+            let sql = args.get(4).cloned().unwrap_or_else(|| doc["context"]["sql"].as_str().unwrap_or("").to_string());
+            let nodes = args.get(5).and_then(|s| s.parse().ok()).unwrap_or(doc["context"]["nodes"].as_u64().unwrap_or(1) as usize);
+            let init = args.get(6).and_then(|s| s.parse().ok()).unwrap_or(doc["context"]["initiator"].as_u64().unwrap_or(0) as usize);
+            cluster::runs::debug_sql(rs, &doc["overrides"], &sql, nodes, init);
+            let _ = std::fs::remove_dir_all(report::scratch_root());
+        }
+        _ => {
+            eprintln!("unknown command {cmd}");
+            std::process::exit(2);
+        }
+    }
+}
